@@ -33,7 +33,7 @@ LEVEL_TEXT = ("Machine-checked theorems for ALL well-formed objects of both fami
               "network_offset sets network+k for 0<=k<=hostmask and rejects everything else. Theorems are about terms re-translated from /repo on every run (gen/GenOK13.v re-proved).")
 LEVEL_NOTE = ("Trusted: Coq kernel + vm_compute; translator and its attribute map/typing assumptions; correspondence driver. "
               "__hash__ itself (Python string hashing) is not modelled: the theorem says any function of (address, prefix length) agrees on equal objects, and the tie checks hash() on every compared pair. "
-              "__ne__ is checked by the tie only (negation of __eq__).")
+              "__ne__ is translated too and proved to be the negation of __eq__ (ne_is_not_eq).")
 
 SETTERS4 = ["prefixlen", "masklen", "prefixlength", "masklength"]
 SETTERS6 = ["prefixlen", "masklen", "masklength"]
